@@ -22,7 +22,8 @@ EXPLANATION = (
     'null-checked; (GRD.3) the dispatch passes only a freshly looked-up request or a deliberate NULL, and '
     'handlers that may receive NULL test it before any dereference; (UAR.1) no request is used after a call '
     'that may retire it.  Decides the mechanism on all paths; container semantics are C19.'
-    ' Rounds 8-9: (WMC.4) what modules install in the registered / disconnect slots cannot reach the sender; (TMR.1) an event that carries a request is owned by it.')
+    ' Rounds 8-9: (WMC.4) what modules install in the registered / disconnect slots cannot reach the sender; (TMR.1) an event that carries a request is owned by it.'
+    ' Hunt round 1: (MPT.5) every path through the announcement handler settles the previous holder of the id - inserts (replacing it) or looks it up and retires it.')
 ASSUMPTIONS = ['clang 14 CFG; module callbacks resolved through function-pointer slots',
                'the request table is the file-static iauth_reqs; set_remove(table, x, 0) disposes x',
                'one UAR exception with machine-checked premises (DESIGN.md 4.1)']
